@@ -6,8 +6,9 @@ with `Shelxfile.read_string`) on symbolic numbers (symtrace.py).
 Inputs of the emitted definitions:
   * `p1x … p4z` — the Cartesian coordinates the four atoms carry (`Atom.cart_coords`); the traced results of
     `torsion_angle` / `angle` / `distance` must be functions of these alone (anything else is reported as lost);
-  * `a b c ca cb cg sb sg` — the cell (angles enter only as cos/sin of their radians), `v` — the square root the
-    orthogonalisation matrix takes (the cell volume; its radicand is emitted separately), `x y z` fractional coordinates.
+  * `a b c ca cb cg sb sg` — the cell (angles enter only as cos/sin of their radians), `v` — the one square root the
+    orthogonalisation matrix takes (its radicand is emitted separately as `volRadicand`; the cell volume is `a b c` times
+    it), `x y z` fractional coordinates.
 
 Comparisons of symbolic numbers are branch events. symtrace records their text only; here the *expressions* compared
 are needed (the polynomial whose sign decides the sign of the torsion angle, the distance that is compared with the
